@@ -251,7 +251,10 @@ func (ex *Exec) loopHeader(fr *Frame, h *ssa.BasicBlock, ord int, st *State, phi
 		back := active && lc.unroll && fr.prev != nil && li.body[h][fr.prev]
 		next := &loopCtx{unroll: true}
 		if back {
-			if lc.iter >= unrollBound {
+			// the bound holds per loop and for the path as a whole: several unrolled loops in
+			// one function (or nested ones) share the budget, so the number of paths stays that
+			// of a single unrolled loop
+			if lc.iter >= unrollBound || st.Unrolled >= unrollBound {
 				if ex.bounded == nil {
 					ex.bounded = map[string]int{}
 				}
@@ -259,6 +262,7 @@ func (ex *Exec) loopHeader(fr *Frame, h *ssa.BasicBlock, ord int, st *State, phi
 				return true
 			}
 			next.iter = lc.iter + 1
+			st.Unrolled++
 		}
 		fr.loops[h] = next
 		for p, v := range phiVals {
